@@ -1,9 +1,10 @@
 (* C06 — K-way merge yields the ordered key union, values merged once in source order.
-   Statements only.  Proved so far on the executable model: the heap discipline (pop removes exactly
-   one element), which sources enter the heap, and the degenerate cases.  The full statement
-   (strictly ascending union of keys, one merge call per key on the values in source order) is proved
-   on the abstract merger of design-notes/Merge_probe.v and validated here on every generated case
-   (outputs, the exact sequence of merge-function calls, the file written through a writer). *)
+   Statements only.  C06_merge (at the end) is the full statement on the executable transcription of
+   merger.rs (heap of cursors ordered by (current key, source index), pop the least, pop every equal
+   key, merge, push the advanced cursors back): the merge function is called exactly once per distinct
+   key, in strictly ascending key order, on that key's values in source order, and nothing else
+   happens.  A source is the list of entries its cursor yields (C01); every generated case compares
+   outputs, the exact sequence of merge-function calls and the file written through a writer. *)
 From Coq Require Import Sorting.Permutation.
 From Grenad.model Require Import Base Merger.
 From Grenad.proofs Require Import MergerProofs.
@@ -26,4 +27,52 @@ Print Assumptions C06_empty_sources.
 Example C06_example :
   merge_run mf_concat 0 [[([1], [65]); ([3], [66])]; []; [([1], [67]); ([2], [68])]]
   = Done ([([1], [65; 67]); ([2], [68]); ([3], [66])], 3).
+Proof. vm_compute. reflexivity. Qed.
+
+(* ================= the full statement =================
+   acalls fuel srcs: the (key, values) sequence of an index-ordered abstract merge (take the least
+   head key, the heads equal to it in source order, advance those sources); run_calls applies the
+   merge function to such a sequence, numbering the calls.
+   C06_merge_is_calls: for strictly ascending sources the heap-based merger IS run_calls over
+   that sequence — same output, same calls with the same ordinals, same failure.
+   C06_calls: the sequence has strictly ascending keys, which are exactly the keys of the sources,
+   each with exactly that key's values in source order. *)
+From Coq Require Import Sorted.
+From Grenad.proofs Require Import SortedFacts MergeRefine.
+
+Theorem C06_merge_is_calls : forall mf calls srcs, Forall ssorted srcs ->
+  merge_run mf calls srcs = run_calls mf calls (acalls (S (total_len srcs)) srcs).
+Proof. exact merge_run_calls. Qed.
+Print Assumptions C06_merge_is_calls.
+
+Theorem C06_calls : forall srcs, Forall ssorted srcs ->
+  let cs := acalls (S (total_len srcs)) srcs in
+  StronglySorted blt (map fst cs) /\
+  (forall k, In k (map fst cs) <-> has_key k srcs) /\
+  (forall k vs, In (k, vs) cs -> vs = vals_of k srcs).
+Proof. exact merge_calls_spec. Qed.
+Print Assumptions C06_calls.
+
+(* when every call returns a value: one output entry per call, with the call's key and the merge
+   function's value, and the call counter advanced by the number of keys *)
+Theorem C06_output : forall mf cs calls out n, run_calls mf calls cs = Done (out, n) ->
+  map fst out = map fst cs /\ n = calls + len cs /\
+  Forall2 (fun c e => exists j, mf j (fst c) (snd c) = Done (snd e) /\ fst e = fst c) cs out.
+Proof. exact run_calls_done. Qed.
+Print Assumptions C06_output.
+
+(* otherwise the first call that does not return a value decides the result: its merge error (or
+   panic) is the result of the whole merge, and every earlier call returned a value *)
+Theorem C06_failure : forall mf cs calls,
+  (exists pre k vs post j, cs = pre ++ (k, vs) :: post /\ j = calls + len pre /\
+     (forall i c, nth_error pre i = Some c -> exists v, mf (calls + N.of_nat i) (fst c) (snd c) = Done v) /\
+     match mf j k vs with Done _ => False | _ => True end /\
+     run_calls mf calls cs = match mf j k vs with Done _ => Panic | Panic => Panic | Fail e => Fail e end) \/
+  (exists out n, run_calls mf calls cs = Done (out, n)).
+Proof. exact run_calls_fail. Qed.
+Print Assumptions C06_failure.
+
+Example C06_calls_example :
+  acalls 5 [[([1], [65]); ([3], [66])]; []; [([1], [67]); ([2], [68])]]
+  = [([1], [[65]; [67]]); ([2], [[68]]); ([3], [[66]])].
 Proof. vm_compute. reflexivity. Qed.
